@@ -90,15 +90,18 @@ func checkC17(c *Ctx, r *Report) {
 	pullProcessedOnlyAfterWrite(c, r, "C17-R5")
 	c06R3For(c, r, "C17-R6")
 	c17R7(c, r)
+	c17R8(c, r)
 }
 
-func c17R2(c *Ctx, r *Report) {
-	r.Rule("C17-R2", "E2 def-use", "persisted last_sequence = String() of the sequence handed to _setCheckpoints, which CheckpointNow takes from _updateCheckpointLists, which selects expectedSeqs[_calculateSafeExpectedSeqsIdx()]; lastCheckpointSeq is stored only after both checkpoint writes succeeded", 4)
+func c17R2(c *Ctx, r *Report) { c17R2For(c, r, "C17-R2") }
+
+func c17R2For(c *Ctx, r *Report, rule string) {
+	r.Rule(rule, "E2 def-use", "persisted last_sequence = String() of the sequence handed to _setCheckpoints, which CheckpointNow takes from _updateCheckpointLists, which selects expectedSeqs[_calculateSafeExpectedSeqsIdx()]; lastCheckpointSeq is stored only after both checkpoint writes succeeded", 4)
 	set := c.Func("(*db.Checkpointer)._setCheckpoints")
 	now := c.Func("(*db.Checkpointer).CheckpointNow")
 	upd := c.Func("(*db.Checkpointer)._updateCheckpointLists")
 	if set == nil || now == nil || upd == nil {
-		r.Fail("C17-R2", "anchor checkpointer functions", "-", "function not found")
+		r.Fail(rule, "anchor checkpointer functions", "-", "function not found")
 		return
 	}
 	// LastSeq stores in _setCheckpoints derive from seq.String() of the parameter
@@ -116,10 +119,10 @@ func c17R2(c *Ctx, r *Report) {
 			}
 			return DependsOn(call.Call.Args[0], func(x ssa.Value) bool { return isParam(x, 1) })
 		})
-		r.Check("C17-R2", fmt.Sprintf("fn=(*db.Checkpointer)._setCheckpoints store=LastSeq #%d from=seq-parameter", n), c.Pos(st.Pos()), ok, "LastSeq = seq.String()", "the persisted checkpoint is not the sequence that was computed as safe")
+		r.Check(rule, fmt.Sprintf("fn=(*db.Checkpointer)._setCheckpoints store=LastSeq #%d from=seq-parameter", n), c.Pos(st.Pos()), ok, "LastSeq = seq.String()", "the persisted checkpoint is not the sequence that was computed as safe")
 	}
 	if n < 2 {
-		r.Fail("C17-R2", "fn=(*db.Checkpointer)._setCheckpoints stores=LastSeq", c.Pos(set.Pos()), fmt.Sprintf("expected local and remote checkpoint bodies, found %d", n))
+		r.Fail(rule, "fn=(*db.Checkpointer)._setCheckpoints stores=LastSeq", c.Pos(set.Pos()), fmt.Sprintf("expected local and remote checkpoint bodies, found %d", n))
 	}
 	// CheckpointNow passes the result of _updateCheckpointLists
 	okArg := false
@@ -129,7 +132,7 @@ func c17R2(c *Ctx, r *Report) {
 			okArg = true
 		}
 	}
-	r.Check("C17-R2", "fn=(*db.Checkpointer).CheckpointNow persists=result-of-_updateCheckpointLists", c.Pos(now.Pos()), okArg, "the safe sequence computed under the lock is what gets persisted", "CheckpointNow persists a sequence other than the one computed by _updateCheckpointLists")
+	r.Check(rule, "fn=(*db.Checkpointer).CheckpointNow persists=result-of-_updateCheckpointLists", c.Pos(now.Pos()), okArg, "the safe sequence computed under the lock is what gets persisted", "CheckpointNow persists a sequence other than the one computed by _updateCheckpointLists")
 	// _updateCheckpointLists: returned pointer points at a copy of expectedSeqs[maxI], maxI from the safe-index helper
 	okSel := false
 	EachInstr(upd, false, func(in ssa.Instruction) {
@@ -149,7 +152,7 @@ func c17R2(c *Ctx, r *Report) {
 			}
 		}
 	})
-	r.Check("C17-R2", "fn=(*db.Checkpointer)._updateCheckpointLists result=expectedSeqs[safe-index]", c.Pos(upd.Pos()), okSel, "safe sequence is the expected-list element at the safe-prefix index", "the sequence returned for checkpointing is not the expected-list element at the safe-prefix index")
+	r.Check(rule, "fn=(*db.Checkpointer)._updateCheckpointLists result=expectedSeqs[safe-index]", c.Pos(upd.Pos()), okSel, "safe sequence is the expected-list element at the safe-prefix index", "the sequence returned for checkpointing is not the expected-list element at the safe-prefix index")
 	// lastCheckpointSeq store after both writes succeed
 	lcF := c.Field("db.Checkpointer", "lastCheckpointSeq")
 	var okEdges [][]Edge
@@ -172,7 +175,7 @@ func c17R2(c *Ctx, r *Report) {
 				ok = false
 			}
 		}
-		r.Check("C17-R2", fmt.Sprintf("fn=(*db.Checkpointer)._setCheckpoints store=lastCheckpointSeq #%d after=both-writes-ok", k), c.Pos(st.Pos()), ok, "dominated by success of the local and the remote checkpoint write", "the in-memory last checkpoint can advance although a checkpoint write failed")
+		r.Check(rule, fmt.Sprintf("fn=(*db.Checkpointer)._setCheckpoints store=lastCheckpointSeq #%d after=both-writes-ok", k), c.Pos(st.Pos()), ok, "dominated by success of the local and the remote checkpoint write", "the in-memory last checkpoint can advance although a checkpoint write failed")
 	}
 }
 
